@@ -103,15 +103,26 @@ impl TimeScale {
     /// If the `time` is nowhere on the timeline, returns one of the other [`TimeScalePosition`]
     /// values indicating which extreme was reached.
     pub fn get_position(&self, time: f32) -> TimeScalePosition {
+        // The end is decided against the same (rounded) total that `get_duration` reports, so that
+        // `time >= get_duration()` always means "at the terminal position". Deciding it from the
+        // time since the delay, which is rounded once more, can leave the position inside the last
+        // cycle - or wrap it around into a cycle that does not exist - at that very instant.
+        let total_duration = self.get_duration();
+        if time > total_duration {
+            return self.position_ended();
+        }
+        let at_end = time == total_duration;
         let time = time - self.delay;
         if time < 0.0 {
             return TimeScalePosition::NotStarted;
         }
         let (cycle_time, is_repeating) = match self.repeat {
-            Repeat::None if time > self.duration => return self.position_ended(),
+            Repeat::None if at_end || time >= self.duration => (self.duration, false),
             Repeat::None => (time, false),
-            Repeat::Times(times) if time > self.duration * (times as u64 + 1) as f32 => {
-                return self.position_ended();
+            Repeat::Times(times)
+                if at_end || time >= self.duration * (times as u64 + 1) as f32 =>
+            {
+                (self.duration, times > 0)
             }
             Repeat::Times(_) | Repeat::Infinite => {
                 // Doing the "simple" modulo arithmetic can produce some unintuitive results, since
